@@ -7,9 +7,9 @@ from props import c03
 
 OBLIGATIONS = dict(
     prop_file='Properties/C14.v',
-    glue=['Glue/CoreGlue.v', 'Glue/Pin_p_kmeans.v', 'Glue/Pin_inv_euclid.v', 'Glue/Pin_inv_cosine.v'],
+    glue=['Glue/CoreGlue.v', 'Glue/Pin_p_kmeans.v', 'Glue/Pin_inv_euclid.v', 'Glue/Pin_inv_cosine.v'] + ['Glue/Pin_fp_C14.v'],
     extra=['Model/CoreCheck.vo'],
-    gen_items=['g_euclid_kmeans', 'g_cosine_kmeans', 'p_kmeans', 'o_kmeans_collectives', 'inv_euclid', 'inv_cosine'],
+    gen_items=['g_euclid_kmeans', 'g_cosine_kmeans', 'p_kmeans', 'o_kmeans_collectives', 'inv_euclid', 'inv_cosine', 'fp_C14'],
 )
 ASSUMPTIONS = [
     'the initial means are an oracle (torch.randperm / randint inside sample_vectors): contract = each seed is a row of the valid-token data; the harness captures them by wrapping the module instance\'s sample_fn from outside',
